@@ -86,9 +86,11 @@ def judgeObs (lim : Limits) (toks : List String) : List String :=
 /-- which limit bounds the result of a constructor -/
 def limitOf (lim : Limits) (ctor : String) : Int :=
   match ctor with
-  | "allocate" | "aggregate" | "add_array" | "add_array_self" | "slice" | "explode" | "explode0" => lim.maxArray
+  | "allocate" | "aggregate" | "add_array" | "add_array_self" | "slice" | "explode" | "explode0"
+  | "copy_array" | "sort_array" | "map_array" | "filter_array" | "unique_array" | "array_sub" | "array_and"
+  | "keys" | "values" => lim.maxArray
   | "allocate_buffer" | "add_buffer" => lim.maxBuffer
-  | "map_insert" | "map_aggregate" | "map_add" => lim.maxMapping
+  | "map_insert" | "map_aggregate" | "map_add" | "copy_mapping" | "allocate_mapping" => lim.maxMapping
   | _ => lim.maxString
 
 structure JState where
